@@ -298,6 +298,21 @@ proof_fmt!(c03_key_path_plain, 12, {
     kani::cover!(c == b'a', "letter");
     forget(p);
 });
+// two-byte ASCII names that need no escaping - including names that begin and end with a
+// double quote (a document member may be called `""`): reported verbatim between single quotes
+proof_fmt!(c03_key_path_plain2, 12, {
+    let node = Mini::Null;
+    let (c, d): (u8, u8) = (kani::any(), kani::any());
+    kani::assume(c >= 0x20 && c < 0x7f && c != b'\'' && c != b'\\');
+    kani::assume(d >= 0x20 && d < 0x7f && d != b'\'' && d != b'\\');
+    let buf = [c, d];
+    let p = Pointer::key(&node, String::from("$"), str_over(&buf, 2));
+    let exp = [b'$', b'[', b'\'', c, d, b'\'', b']'];
+    assert!(path_is(&p.path, &exp, 7), "name step of a Normalized Path must be ['<name>'] for a two-character member name");
+    kani::cover!(c == b'"' && d == b'"', "member name made of two double quotes");
+    kani::cover!(c == b'a' && d == b'b', "letters");
+    forget(p);
+});
 // names that need escaping: ' \ and control characters (role B, finding F3)
 proof_fmt!(c03_roleb_key_path_escaped, 12, {
     let node = Mini::Null;
@@ -474,3 +489,46 @@ c01_name_unicode!(c01_name_u2, "\u{e9}", Some(0));
 c01_name_unicode!(c01_name_u3, "\u{65e5}\u{672c}", Some(1));
 c01_name_unicode!(c01_name_u4, "\u{1f600}", Some(2));
 c01_name_unicode!(c01_name_u3_prefix, "\u{65e5}", None);
+
+// Record, NOT a registered check: with assumption A1 lifted (any i64 index) Kani reports the
+// overflow of `idx.abs()` in process_index for i64::MIN. Before fix 47202e2 the parser let such
+// an index through in singular-query segments (`$[?@[-9223372036854775808] == 1]`); since the
+// fix every index that reaches the evaluator from a query string is range-checked, so the
+// registered harnesses keep A1.
+proof!(x_a1_lifted_index_any_i64, 4, {
+    let a = marker_array(1);
+    let doc = Mini::Arr(a);
+    let i: i64 = kani::any();
+    let d = process_index(root_ptr(&doc), &i);
+    forget(d);
+});
+
+// C08: building the path step for ANY member name of one or two ASCII bytes (quotes, backslash
+// and control characters included) never panics - a document may call a member `'`.
+proof!(c08_key_path_any1, 6, {
+    let node = Mini::Null;
+    let c: u8 = kani::any();
+    kani::assume(c < 0x80);
+    let buf = [c];
+    let p = Pointer::key(&node, String::from("$"), str_over(&buf, 1));
+    kani::cover!(c == b'\'', "the member is called '");
+    kani::cover!(c == b'"', "the member is called \"");
+    forget(p);
+});
+proof!(c08_key_path_any2, 6, {
+    let node = Mini::Null;
+    let (c, d): (u8, u8) = (kani::any(), kani::any());
+    kani::assume(c < 0x80 && d < 0x80);
+    let buf = [c, d];
+    let p = Pointer::key(&node, String::from("$"), str_over(&buf, 2));
+    kani::cover!(c == b'\'' && d == b'\'', "the member is called ''");
+    kani::cover!(c == b'\'' && d != b'\'', "leading quote only");
+    forget(p);
+});
+proof!(c08_key_path_empty, 6, {
+    let node = Mini::Null;
+    let buf = [0u8; 1];
+    let p = Pointer::key(&node, String::from("$"), str_over(&buf, 0));
+    kani::cover!(true, "the member name is empty");
+    forget(p);
+});
